@@ -74,6 +74,9 @@ type SinkFault struct {
 type SignerFault struct {
 	FailCall int `json:"fail_call"` // 1-based call that fails; 0 = none
 	ReadN    int `json:"read_n"`    // bytes read before failing; -1 = read everything
+	// WithBytes: the failing call returns some bytes together with its error
+	// (what `return cmd.Output()` around an external signer does)
+	WithBytes bool `json:"with_bytes,omitempty"`
 }
 
 // FSFault edits the materialised tree before an operation.
